@@ -28,8 +28,9 @@ type Scenario struct {
 	Sched   bool     `json:"sched"`
 	CondErr bool     `json:"conderr"`
 	Hold    []string `json:"hold"`
-	NWait   int      `json:"nwait"` // extra waiting stages (scheduler modes), not part of the model
-	Allow   []bool   `json:"allow"` // allow_failure per task: must not turn an interruption into success
+	NWait   int      `json:"nwait"`  // extra waiting stages (scheduler modes), not part of the model
+	Nested  bool     `json:"nested"` // scheduler modes: the whole pipeline is included by a stage of an outer pipeline
+	Allow   []bool   `json:"allow"`  // allow_failure per task: must not turn an interruption into success
 	Dir     string   `json:"dir"`
 }
 
@@ -295,6 +296,16 @@ func Worker(arg string) int {
 		if err != nil {
 			res.DriverProblem = err.Error()
 			return out()
+		}
+		if sc.Nested {
+			// the scenario's pipeline runs as a nested pipeline: its loop (and a Cancel it issues
+			// itself) executes inside the stage goroutine of the including stage
+			outer, err := scheduler.NewExecutionGraph(&scheduler.Stage{Name: "outer", Pipeline: graph})
+			if err != nil {
+				res.DriverProblem = err.Error()
+				return out()
+			}
+			graph = outer
 		}
 		sched = scheduler.NewScheduler(tr)
 		sched.VerifSetPause(2 * time.Millisecond)
